@@ -237,6 +237,7 @@ def check_references(u):
     rules.r1_logs(f, schema=LOG_SCHEMA)
     rules.r8_thread(f, [r"CodeFinder::new\("])
     r10_call(f, "CountMissingReferenceIdProcessor", "count")
+    rules.r16_map_or(f)
     f.requires += [
         "old(w).protected == Set::<Seq<char>>::empty()", "old(w).files == Seq::<Seq<char>>::empty()",
     ]
